@@ -66,7 +66,35 @@ def c05(r):
     syncer(r, ["C05.", "C02."], crash=True)
 
 
-PIPELINES = {"C01": c01, "C04": c04, "C02": c02, "C05": c05}
+def submitter(r, prefixes):
+    r.tlc_exhaustive("MCSubmitter.tla", "Submitter.cfg")
+    r.tlc_exhaustive("MCSubmitter.tla", "Submitter_live.cfg", workers=8)
+    if r.tier == "thorough":
+        r.tlc_exhaustive("MCSubmitter.tla", "Submitter_big.cfg", timeout=1500)
+    n = 60 if r.tier == "quick" else 300
+    beh = r.tlc_simulate("MCSubmitter.tla", "Submitter_sim.cfg", n, 60, name="beh-sub1")
+    t = r.drive("submitter", ["-arg", "1:0"], beh=beh, name="submitter-model-ih1")
+    r.tlc_validate("SubmitTrace", t, prefixes)
+    beh = r.tlc_simulate("MCSubmitter.tla", "Submitter_sim3.cfg", n, 60, name="beh-sub3")
+    t = r.drive("submitter", ["-arg", "3:2"], beh=beh, name="submitter-model-ih3")
+    r.tlc_validate("SubmitTrace", t, prefixes)
+    t = r.drive("submitter", name="submitter-scenarios")
+    r.tlc_validate("SubmitTrace", t, prefixes)
+
+
+def c06(r):
+    submitter(r, ["C06."])
+
+
+def c07(r):
+    submitter(r, ["C07."])
+
+
+def c08(r):
+    submitter(r, ["C08."])
+
+
+PIPELINES = {"C01": c01, "C04": c04, "C02": c02, "C05": c05, "C06": c06, "C07": c07, "C08": c08}
 ASSUME = {}
 FINISH = {}
 
@@ -75,4 +103,4 @@ def REPLAY_MONITOR(pid, path):
     import os
     import re
     m = re.match(r"%s-([A-Za-z0-9]+)-" % pid, os.path.basename(path))
-    return m.group(1) if m else {"C01": "ProducerTrace", "C04": "ProducerTrace", "C02": "SyncTrace", "C05": "SyncTrace", "C03": "SyncTrace"}[pid]
+    return m.group(1) if m else {"C01": "ProducerTrace", "C04": "ProducerTrace", "C02": "SyncTrace", "C05": "SyncTrace", "C03": "SyncTrace", "C06": "SubmitTrace", "C07": "SubmitTrace", "C08": "SubmitTrace"}[pid]
